@@ -110,3 +110,21 @@ Proof. intro H. rewrite src_remove_light_is_model. exact (net_remove_light_spec 
 Theorem src_remove_inter_is_restrict i n : WF n ->
   run_remove src_remove_inter (fun m => m) i n = restrict all all all (neq i) n.
 Proof. intro H. rewrite src_remove_inter_is_model. exact (net_remove_inter_spec i n H). Qed.
+
+(* ---- create_from_lanelet_list with the parsed cleanup methods is from_list (cleanup_ids = True); the three cleanups
+   commute on a network that holds lanelets only in the sense that the parsed order gives the model's composition *)
+Definition src_clean (k : ckind) : network -> network :=
+  match k with
+  | CkLanelets => run_cleanup src_cleanup_lanelets
+  | CkSigns => run_cleanup src_cleanup_signs
+  | CkLights => run_cleanup src_cleanup_lights
+  end.
+Theorem src_from_list_is_model ls n : run_from_list src_from_list src_clean true ls n = from_list ls n.
+Proof.
+  unfold run_from_list, from_list. cbn [fl_cleanups src_from_list fold_left src_clean].
+  rewrite ?src_cleanup_lanelets_is_model, ?src_cleanup_lights_is_model, ?src_cleanup_signs_is_model. reflexivity.
+Qed.
+Theorem src_from_list_is_restrict ls n : WF n ->
+  run_from_list src_from_list src_clean true ls n = restrict (isin ls) none none none n.
+Proof. intro H. rewrite src_from_list_is_model. exact (from_list_spec ls n H). Qed.
+
